@@ -48,6 +48,33 @@ correspondence (op ahist): folded constants, NumWires-NumGates and the results
 of sessions / Compute along real histories over all kinds.  A new package-level
 variable in the compile path focuses the widened history search on the
 facilities of its package, with every kind and same-/other-width actors.
+(7) CONCURRENT HISTORY ELEMENTS (Model/ProcConc.lean, harness pconc.go): a
+process that compiles several programs AT THE SAME TIME (a server, parallel
+tests), each with its own Compiler and Params, makes repeated compilations too;
+what overlapping compilations share is the process state, and state that every
+compilation writes before it reads it (a scratch buffer) is invisible to every
+sequential history.  A step is a sequence of atomic micro-steps, a concurrent
+element runs its steps under a schedule; theorems: micro-steps that leave what
+they read unchanged give every task its solo outputs under EVERY schedule, the
+code as it is does (over histories of concurrent elements of all step kinds), a
+package-level scratch cell for the names of constants is invisible to
+sequential histories and visible to an interleaving (witness); oracle: per
+sibling group one more child process whose history elements are k = 2..8
+goroutines started from a barrier (same program / different programs / mixed
+with programs rich in int64 constants: family const-rich - array indexing,
+slices, struct fields, len, strings), several rounds, GOMAXPROCS default and
+2 / 4 / 8, one process over all groups with other step kinds at the same time;
+every step joins the comparison of all compilations of its program (which
+starts from the sequential histories); a difference is minimised to a concrete
+concurrent history (replay: that history, re-run up to 8 times because the
+schedule is the runtime's, against the program alone in a fresh process); one
+concurrent history runs in a child built with the race detector (go build
+-race of the harness): a reported data race between two compilations is a
+schedule-independent witness of shared writable state (failure
+c08-concurrent-compilations-data-race, the report names the package-level
+variable; replay = the history again under the race detector);
+correspondence (op chist): the outputs of every step of real concurrent
+elements = the model's under a seeded schedule.
 """
 import hashlib
 import json
@@ -91,13 +118,17 @@ THEOREMS = [
     "Mpc.C08_pooled_allocator_keeping_free_lists_history_dependent",
     "Mpc.C08_pooled_allocator_invisible_without_streaming",
     "Mpc.C08_pooled_allocator_cleared_history_independent",
+    "Mpc.C08_concurrent_interleavings_frame",
+    "Mpc.C08_concurrent_history_solo_outputs",
+    "Mpc.C08_shared_scratch_sequential_invisible",
+    "Mpc.C08_shared_scratch_interleaving_dependent",
 ]
 
 # process-state histories (harness pstate.go): generator families and, per package of the compile path, the
 # families whose programs reach package-level state of that package beyond what every compilation reaches.
 # A new / changed package-level variable in package P focuses the widened history search on PKG_FAMILIES[P].
 PSTATE_FAMILIES = ["wide-const-divmod", "wide-const-arith", "wide-const-bits", "runtime-ops", "const-aggregates",
-                   "library", "sizes-params"]
+                   "library", "sizes-params", "const-rich"]
 PKG_FAMILIES = {
     "compiler/mpa": ["wide-const-divmod", "wide-const-arith", "wide-const-bits"],
     "compiler/circuits": ["wide-const-divmod", "wide-const-arith", "runtime-ops", "library"],
@@ -105,11 +136,11 @@ PKG_FAMILIES = {
     # every compilation and every streaming session runs through these packages; what differs between requests
     # there is the value / wire / type population: widths and signedness, aggregates, instantiated library functions,
     # input sizes
-    "compiler/ssa": ["runtime-ops", "const-aggregates", "library", "sizes-params", "wide-const-bits"],
-    "compiler/ast": ["runtime-ops", "const-aggregates", "library", "sizes-params", "wide-const-arith"],
-    "compiler": ["const-aggregates", "library", "sizes-params"],
-    "compiler/utils": ["runtime-ops", "library", "sizes-params"],
-    "types": ["runtime-ops", "const-aggregates", "sizes-params"],
+    "compiler/ssa": ["runtime-ops", "const-aggregates", "library", "sizes-params", "wide-const-bits", "const-rich"],
+    "compiler/ast": ["runtime-ops", "const-aggregates", "library", "sizes-params", "wide-const-arith", "const-rich"],
+    "compiler": ["const-aggregates", "library", "sizes-params", "const-rich"],
+    "compiler/utils": ["runtime-ops", "library", "sizes-params", "const-rich"],
+    "types": ["runtime-ops", "const-aggregates", "sizes-params", "const-rich"],
 }
 # step kinds of the activity histories (harness pacts.go)
 PSTATE_KINDS = ["stream", "stream-file", "ssa-stream", "compute", "garble-eval", "roundtrip", "compile-file", "compile-ssa"]
@@ -387,7 +418,7 @@ def replay_request():
     except Exception:
         return None, None
     fl = doc.get("failure") or {}
-    if fl.get("sig") == "c08-process-state-history" and fl.get("replay_spec"):
+    if fl.get("sig") in ("c08-process-state-history", "c08-concurrent-compilations-data-race") and fl.get("replay_spec"):
         # finish() rewrites the replay file: hand the harness a copy
         cp = os.path.join(vlib.VERIF, ".work", "C08-replay-%d.json" % os.getpid())
         json.dump(doc, open(cp, "w"))
@@ -408,8 +439,10 @@ def new_pkgvar_packages(facts):
     return sorted({g[0] for g in got})
 
 
-def pstate_run(ctx, seed, extra="", tag="", prefix="", timeout=900):
-    ops, out, meta = ctx.run_hx("pstate", 8, seed=seed, extra_args=(["-extra", extra] if extra else []), tag=tag,
+def pstate_run(ctx, seed, extra="", tag="", prefix="", timeout=900, racebin=None):
+    # racebin: the race-detector build of the harness; one concurrent history runs in a child process of it
+    hx_extra = ";".join(x for x in (extra, "racebin=" + racebin if racebin else "") if x)
+    ops, out, meta = ctx.run_hx("pstate", 8, seed=seed, extra_args=(["-extra", hx_extra] if hx_extra else []), tag=tag,
                                 timeout=timeout)
     ctx.absorb_meta(meta, prefix=prefix)
     ctx.coverage.setdefault("pstate_runs", []).append(
@@ -421,7 +454,8 @@ def pstate_run(ctx, seed, extra="", tag="", prefix="", timeout=900):
     if os.path.exists(ops) and os.path.getsize(ops) > 0:
         ctx.correspond("folded wide constants of every compilation of real one-process histories = outputsAlong stepNow; "
                        "constants, NumWires-NumGates and results of every step of real histories over all step kinds = "
-                       "outputsAlongK stepNowK (seed %d%s)" % (seed, " " + extra if extra else ""), ops, out)
+                       "outputsAlongK stepNowK; of every step of real concurrent history elements = runElements microNow "
+                       "under a seeded schedule (seed %d%s)" % (seed, " " + extra if extra else ""), ops, out)
         distinct_ops(ctx, ops)
     return meta
 
@@ -441,9 +475,13 @@ def run(ctx):
             check_facts(ctx, m.get("facts"))
         # ---- --replay of a process-state history: exactly the recorded history and its reference, each in a
         # fresh process; a reproduced difference decides the run
+        # the race-detector build of the harness (go build -race): one concurrent history of every pstate run and
+        # the replay of a data-race report run in a child process of it
+        racebin = ctx.build_hx(race=True)
         rp, _ = replay_request()
         if rp:
-            _, _, rm = ctx.run_hx("pstate", 8, extra_args=["-extra", "replay=" + rp], tag="-replay", timeout=600)
+            _, _, rm = ctx.run_hx("pstate", 8, extra_args=["-extra", "replay=" + rp + (";racebin=" + racebin if racebin else "")],
+                                  tag="-replay", timeout=600)
             ctx.absorb_meta(rm, prefix="replay_")
             ctx.coverage["replayed_history"] = rm.get("replay") or rm.get("replay_error")
             print("replayed history: %s" % json.dumps(rm.get("replay") or rm.get("replay_error"))[:1500])
@@ -451,10 +489,12 @@ def run(ctx):
             if ctx.fails:
                 ctx.coverage["rule"] = "replay of one recorded process-state history (the full check was not run)"
                 return ctx.finish("Replay: the recorded history and its reference were re-run, each in a fresh process; "
-                                  "the outputs of the same program still differ.")
+                                  "the outputs of the same program still differ (a history with concurrent elements is "
+                                  "re-run up to 8 times: the schedule is the runtime's; a data-race report is replayed by "
+                                  "running the recorded history again in a child built with the race detector).")
             print("the replayed history no longer gives a different output; running the full check")
         # ---- process-state histories over sibling groups (every history in its own process)
-        pm = pstate_run(ctx, ctx.seed)
+        pm = pstate_run(ctx, ctx.seed, racebin=racebin)
         c0 = ctx.coverage.get("counters", {})
         ctx.oblige("process-state histories: every generator family compiled programs (>= 90% of all compile), processes of "
                    "all four kinds ran, comparisons within a process and across processes, long-lived and fresh Compilers",
@@ -482,6 +522,25 @@ def run(ctx):
                    "Compute, Garble/Eval, round trip, CompileSSA)",
                    c0.get("op_ahist", 0) > 0 and all(c0.get("op_ahist_steps_" + k, 0) > 0 for k in "CSEGRA"),
                    json.dumps({k: v for k, v in c0.items() if k.startswith("op_ahist")}))
+        ncs = c0.get("pstate_concurrent_steps", 0)
+        ctx.oblige("concurrent history elements: k = 2..8 goroutines each, same program / different programs / mixed / with "
+                   "other step kinds, GOMAXPROCS default and set, >= 90% of the steps overlapped in time with a peer, programs "
+                   "rich in int64 constants among them, every step joined the comparison of its program, the sequential "
+                   "compilations after the elements too; one concurrent history ran under the race detector",
+                   all(c0.get("pstate_concurrent_elements_k%d" % k, 0) > 0 for k in range(2, 9)) and
+                   all(c0.get("pstate_concurrent_elements_" + k, 0) > 0 for k in ("same_program", "different_programs", "mixed",
+                                                                                  "with_other_step_kinds")) and
+                   c0.get("pstate_concurrent_processes_gomaxprocs_default", 0) > 0 and
+                   c0.get("pstate_concurrent_processes_gomaxprocs_set", 0) > 0 and
+                   ncs >= 100 and 10 * c0.get("pstate_concurrent_steps_overlapping_in_time", 0) >= 9 * ncs and
+                   c0.get("pstate_concurrent_steps_const_rich", 0) >= 20 and
+                   c0.get("pstate_comparisons_concurrent_compilation", 0) >= 100 and
+                   all(c0.get("pstate_processes_" + k, 0) > 0 for k in ("concurrent", "cross-concurrent")) and
+                   (racebin is None or c0.get("pstate_race_detector_processes", 0) > 0),
+                   json.dumps({k: v for k, v in c0.items() if "concurrent" in k or "race" in k}))
+        ctx.oblige("model ops of kind chist were produced (histories with concurrent elements under seeded schedules)",
+                   c0.get("op_chist", 0) > 0 and c0.get("op_chist_concurrent_elements", 0) >= 3,
+                   json.dumps({k: v for k, v in c0.items() if k.startswith("op_chist")}))
         newpk = new_pkgvar_packages(m.get("facts") or {})
         ctx.coverage["packages_with_new_package_level_variables"] = newpk
         if ctx.widen:
@@ -492,8 +551,8 @@ def run(ctx):
             for k in range(1, 4):
                 if ctx.fails:
                     break
-                pstate_run(ctx, ctx.seed + 100 * k, extra="focus=%s;scale=%d;heavy=1;acts=full" % (",".join(fams), 1 if len(fams) > 3 else 2),
-                           tag="-widen", prefix="widen%d_" % k)
+                pstate_run(ctx, ctx.seed + 100 * k, extra="focus=%s;scale=%d;heavy=1;acts=full;conc=full" % (",".join(fams), 1 if len(fams) > 3 else 2),
+                           tag="-widen", prefix="widen%d_" % k, racebin=racebin)
         runs = [(ctx.seed, 6 if quick else 8, [])]
         if not quick:
             # further seeds: light corpus (quick-tier programs, 40 generated ones each)
@@ -563,11 +622,22 @@ def run(ctx):
         "search: every kind again with same-width and other-width actors), v the victim and a sibling of its argument "
         "widths, a_i siblings, seeded inputs; GOGC=off, alternately GOMAXPROCS=1; one process over all groups; every "
         "circuit compiled inside a step joins the comparison of its program, steps of one (program, kind, inputs) are "
-        "compared as a whole. distinct = distinct dc/init/hist/phist/ahist op lines")
+        "compared as a whole. Concurrent history elements: per group one more child process whose elements are k = 2..8 "
+        "goroutines started from a barrier, each step with its own Compiler and Params (same program x k; k siblings; the "
+        "victim twice + siblings + programs of the families const-rich / const-aggregates), 1 round for the wide-constant "
+        "families and 3 for the others (one more in the thorough tier / widened search), followed by sequential "
+        "compilations of the victim and a sibling; one process over all groups with 4 (8) elements of 8 goroutines that "
+        "also run compile-file / compile-ssa / compute / roundtrip steps; GOMAXPROCS default, 4, 2, 8; family const-rich: "
+        "struct fields, array indexing with modular offsets, slices, len, string bytes, shifts - several hundred int64 "
+        "constants per program, siblings differ in one of offset / strings / slice bounds / rounds / added constants; one "
+        "concurrent history (victims of the cheap groups, const-rich programs; 3-4 goroutines) in a child built with "
+        "go build -race. distinct = distinct dc/init/hist/phist/ahist/chist op lines")
     ctx.trusted += vlib.DEFAULT_TRUSTED + [
         "go/parser + go/types fact extractor in harness/cmd/c08/facts.go (source importer for the standard library)",
         "the SSA-listing canonicaliser/classifier in harness/cmd/c08/compile.go (names the kind of a difference in the report; every difference is a violation)",
         "Go runtime: per-process / per-iteration map iteration randomisation actually varies the hand-over order",
+        "Go race detector (go build -race) and the ELF symbol table of the race build (names the package-level variable an "
+        "access address lies in)",
     ]
     ctx.assumptions += [
         "history independence is proved for the model in which resetPackages empties everything a compilation "
@@ -586,6 +656,16 @@ def run(ctx):
         "are not covered; the allocator model covers the input wires only",
         "a history whose effect depends on which P finds a pooled object is re-run up to 3 times when it is minimised "
         "and replayed",
+        "C08_concurrent_history_solo_outputs is about microNow, whose micro-steps do not look at the process state by "
+        "definition: it transfers to the code through the pinned package-level variables, the race-detector run and the "
+        "concurrent histories; the interleaving of real goroutines is the Go scheduler's (not controlled, not recorded): "
+        "concurrent elements are repeated over rounds, k and GOMAXPROCS settings, >= 90% of their steps must overlap in "
+        "time, and a history with concurrent elements is re-run up to 8 times when it is minimised and replayed; state "
+        "whose write-to-read window is never hit by another goroutine in these runs and is not reported by the race "
+        "detector (e.g. guarded by a lock but still order dependent) is not covered; sequential consistency of the "
+        "micro-steps is assumed by the model (no torn writes)",
+        "a single Compiler / Params shared by goroutines is outside the property (a Compiler holds the package table of "
+        "one compilation, Params.SSAOut is one writer): every concurrent step makes its own",
         "the value model of wide constant folds (Model/Mpa.lean large paths, owned by C12) is used for unsigned "
         "uint<w> contexts with non-negative literals only",
         "order dependence outside the enumerated map-range sites (os.File.Readdirnames order of a package directory, "
@@ -622,6 +702,9 @@ def run(ctx):
         "folded wide constants of every compilation of the real histories; histories over ALL step kinds (streaming "
         "sessions, CompileFile, CompileSSA, Compute, Garble/Eval, Marshal/Parse between compilations; "
         "C08_all_step_kinds_history_independent, C08_stepNowK_independent_of_process_state, the allocator-pool "
-        "theorems) with the ahist correspondence of the step model; "
+        "theorems) with the ahist correspondence of the step model; CONCURRENT history elements (k = 2..8 compilations "
+        "at the same time in one process, each with its own Compiler and Params; C08_concurrent_interleavings_frame, "
+        "C08_concurrent_history_solo_outputs, the scratch-cell theorems) with the chist correspondence, compared with "
+        "the sequential histories and the program alone in a fresh process, one of them under the race detector; "
         "any difference is a violation (no known finding is tolerated any more); the replay holds the program and both "
         "SSA listings.")
